@@ -79,6 +79,17 @@ def deep(r) -> int:
     return 1
 
 
+def marathon(seed: int, p: float = 0.008) -> int:
+    """Length of a marathon run, or 0.  A few runs of every history / walk batch (own labelled stream, so no other
+    draw shifts) are an order of magnitude longer than the rest and pass the thresholds that short histories never
+    reach: the 256th and the 1024th access, fill or write, ages and time stamps beyond a byte, more blocks than a
+    small table holds."""
+    r = stream(seed, "marathon")
+    if r.random() < p:
+        return r.choice([258, 300, 520, 1030, 1100, 1300]) + r.randint(0, 40)
+    return 0
+
+
 def errname(e) -> str:
     """Name under which an exception is judged: like the front end (isinstance), a subclass of one of the two
     run-time error types counts as that type."""
